@@ -472,8 +472,8 @@ impl SignatureContext<'_> {
     pub async fn v2_check_header_auth(&mut self, auth_v2: AuthorizationV2<'_>) -> S3Result<CredentialsExt> {
         let method = &self.req_method;
 
-        let date = self.hs.get_unique("date").or_else(|| self.hs.get_unique("x-amz-date"));
-        if date.is_none() {
+        let has_date = self.hs.get_all("date").next().is_some() || self.hs.get_unique("x-amz-date").is_some();
+        if has_date.not() {
             return Err(invalid_request!("missing date"));
         }
 
